@@ -679,6 +679,9 @@ class Data(Field):
                     except Exception as e:
                         byte_count = None
 
+                if isinstance(byte_count, Any):
+                    byte_count = None
+
                 if byte_count is not None:
                     # TODO ignoring the custom regexp!!
                     fragments.append(
